@@ -1,4 +1,4 @@
-import CifModel.Lemmas.StoreWOk
+import CifModel.Lemmas.StoreWOkQ
 /-
   Lemmas/StoreRefineW — the loop-level refinement / code-agreement theorems with their hypotheses discharged from `Good` (what `WOk`
   gives for every managed CIF) and from the validity of the handle (what `inContract` tests): nothing about the history is assumed
